@@ -29,9 +29,9 @@ type linForm struct {
 type absState struct {
 	env    map[*ssa.Phi]ssa.Value
 	lo, hi map[string]int64
-	bools  map[string]bool // truth of opaque conditions already decided on this path
-	rels   []string        // relational facts between two symbols, as text "a<b"
-	epoch  map[string]int  // stores seen per address key (loads of a location are the same value only between stores)
+	bools  map[string]bool          // truth of opaque conditions already decided on this path
+	rels   []string                 // relational facts between two symbols, as text "a<b"
+	epoch  map[string]int           // stores seen per address key (loads of a location are the same value only between stores)
 	mem    map[*ssa.Alloc]ssa.Value // last value stored into a local cell on this path (defer-spilled results, address-taken locals)
 	Blocks []*ssa.BasicBlock
 	Events []absEvent
